@@ -12,7 +12,10 @@ head-of-line parking) and a packet source as one program of the kernel model `K`
 the parked head of each class in a cell.  Every kernel step of this program is a (possibly empty) sequence of actions the
 MultiQueueServer LTS with the DRR record (`Net/Sched/DRR.lean`) *accepts*, commuting with the executable abstraction `absDRR`;
 so the C12 and C15 theorems of the LTS hold of kernel runs — credit range, ledger, fairness bound — with no admissibility
-assumption.
+assumption.  In direct form: `run()` returns within a linear number of kernel steps and never crashes, the history of
+observations of every run is accepted by an executable oracle that restates the credit rules and the visiting order of DRR
+(`drr_on_kernel_credit_rules`, `oracle_accepts_iff`), and the send-or-park decision is read off the attribute cells of the
+kernel state at the decision burst (`drr_on_kernel_decision`).
 
 Scope: one `DRR` whose `weights` dict names the classes `0 … F-1` each once, in an arbitrary order, with positive weights, the
 identity `flow2class` (`FlowsOK`), an `out` attached, `rate > 0`; one source process with non-negative gaps whose packets belong
